@@ -11,8 +11,8 @@ awkward_NumpyArray_fill_tocomplex(TO* toptr,
                                   const FROM* fromptr,
                                   int64_t length) {
   for (int64_t i = 0; i < length; i++) {
-    toptr[tooffset + 2 * i] = (TO)fromptr[i];
-    toptr[tooffset + 2 * i + 1] = (TO)0;
+    toptr[2 * (tooffset + i)] = (TO)fromptr[i];
+    toptr[2 * (tooffset + i) + 1] = (TO)0;
   }
   return success();
 }
